@@ -266,7 +266,12 @@ func MarkCurrent(e Env, part string, replay any) {
 // NoteCurrent adds a violation key and description to the marker of the running case: if
 // the worker dies afterwards (e.g. a goroutine that the oracle already found blocked keeps
 // the bubble from terminating), the driver reports this key instead of the crash site.
-func NoteCurrent(e Env, key, what string) {
+func NoteCurrent(e Env, key, what string) { NoteCurrentChoices(e, key, what, nil) }
+
+// NoteCurrentChoices is NoteCurrent for schedule explorers: the choice list of the running
+// execution is merged into the marker's replay object (field "choices"), so that the
+// replay of a crash re-executes the schedule that the oracle had already judged.
+func NoteCurrentChoices(e Env, key, what string, choices []int) {
 	if e.Out == "" {
 		return
 	}
@@ -279,6 +284,13 @@ func NoteCurrent(e Env, key, what string) {
 		return
 	}
 	rf.Key, rf.What = key, what
+	if choices != nil {
+		var m map[string]any
+		if json.Unmarshal(rf.Replay, &m) == nil && m != nil {
+			m["choices"] = choices
+			rf.Replay = JSON(m)
+		}
+	}
 	b, _ = json.Marshal(rf)
 	os.WriteFile(e.Out+".cur", b, 0o644)
 }
